@@ -46,7 +46,11 @@ static void run_case(const std::string& cid, Toks& t) {
         std::ostringstream o;
         o << view_str(B) << " NLR " << ints_str(new_local_rows) << " LRM " << ints_str(B->local_row_map)
           << " OCM " << ints_str(B->on_proc_column_map) << " FC " << B->partition->first_local_col
-          << " GC " << B->global_num_cols << " NC " << B->on_proc_num_cols << " END";
+          << " GC " << B->global_num_cols << " NC " << B->on_proc_num_cols
+          << " PT " << B->partition->first_local_row << " " << B->partition->last_local_row << " " << B->partition->first_local_col << " "
+          << B->partition->last_local_col << " " << B->partition->local_num_rows << " " << B->partition->local_num_cols << " "
+          << B->partition->global_num_rows << " " << B->partition->global_num_cols << " " << B->off_proc_num_cols << " " << B->local_nnz
+          << " FCS " << ints_str(B->partition->first_cols) << " END";
         emit_all(cid, "NEW", o.str());
         ParComm* c = (ParComm*)B->comm;
         std::ostringstream p;
